@@ -133,7 +133,13 @@ func (p *xprinter) expr(i int) {
 			p.out = append(p.out, xtok{"Constant", n.Text, n.Text})
 		}
 	case "var":
-		p.out = append(p.out, xtok{"Variable", n.Text, n.Text})
+		lex := n.Text
+		for _, k := range c13keywords {
+			if strings.EqualFold(k, n.Text) {
+				lex = "\"" + n.Text + "\"" // an identifier spelled like a keyword is written as a quoted identifier
+			}
+		}
+		p.out = append(p.out, xtok{"Variable", n.Text, lex})
 	case "call":
 		p.out = append(p.out, xtok{"Variable", n.Text, n.Text}, sym("("))
 		for k, c := range n.Kids {
@@ -613,7 +619,7 @@ func (x *xgen) leaf() int {
 	x.nc++
 	switch v := x.r.Intn(12); {
 	case v < 5:
-		k := []string{"a", "b", "c", "x1", "Delta", "été_2"}[x.r.Intn(6)]
+		k := []string{"a", "b", "c", "x1", "Delta", "été_2", "a", "b", "true", "Null", "and", "like"}[x.r.Intn(12)]
 		sp := k
 		if x.r.Intn(3) == 0 {
 			sp = strings.ToUpper(k)
